@@ -348,6 +348,12 @@ def resolve(scn, S):
                      "include": None if inc == "" else {"valid": rx_valid(inc), "matches": [n for n in names if rx_valid(inc) and go_search(inc, n)]},
                      "exclude": None if exc == "" else {"valid": rx_valid(exc), "matches": [n for n in names if rx_valid(exc) and go_search(exc, n)]},
                      "cfg": {"tstatus": pst}})
+    # an output name that is a symbolic link to /dev/full: the file can be opened, every write to it
+    # fails (ENOSPC).  In the model: an existing file at the name's path that cannot be written.
+    for p_ in pkgs:
+        for d_ in p_["decls"]:
+            for q_ in d_["reqs"]:
+                q_["devfull"] = scn.get("links", {}).get("/".join(q_["path"])) == "/dev/full"
     for r in roots:
         r["exclude"] = [{"valid": rx_valid(rx), "matches": [s_ for s_ in r["subs"] if rx_valid(rx) and go_search(rx, s_)]} for rx in r["excl"]]
     fsinfo = {"dirs": {k for k, v in scn["init"].items() if v == "DIR"}, "files": {k for k, v in scn["init"].items() if v != "DIR"},
@@ -570,7 +576,7 @@ def resolve_links(world, S):
         for d in p["decls"]:
             for q in d["reqs"]:
                 q["namepath"] = list(q["path"])
-                if q["outside"]:
+                if q["outside"] or q.get("devfull"):
                     continue
                 real = os.path.realpath(os.path.join(S, *q["path"]))
                 rel = os.path.relpath(real, root)
@@ -712,7 +718,7 @@ def build_case(res):
     paths = sorted(set(res["before"]) | set(res["after"]) | {tuple(q["path"]) for _, q in sel if not q["outside"]})
     before = [(list(p), n) for p, n in sorted(res["before"].items())]
     final = [(list(p), res["after"].get(p)) for p in paths]
-    ro = [r.split("/") for r in res["scn"]["ro"]]
+    ro = [r.split("/") for r in res["scn"]["ro"]] + [list(q["path"]) for _, q in sel if q.get("devfull")]
     return case_term(world, before, ro, contents, invalid, keys, res["run"]["cls"], final), len(keys)
 
 
@@ -914,6 +920,8 @@ def classes_of(world):
         if g["outside"] or g["tstatus"] != "TOk":
             continue
         rel = "/".join(g["path"])
+        if g.get("devfull"):
+            cl.add("OutputWriteFault")
         if rel in fi["dirs"]:
             cl.add("OutputIsDirectory")
         if any("/".join(g["path"][:n]) in fi["files"] for n in range(1, len(g["path"]))):
@@ -1493,6 +1501,40 @@ def inj_write_fails_parent_file(rng, scn):
     scn["tags"] += ["OutputParentIsFile"]
 
 
+def devfull_ok():
+    try:
+        with open("/dev/full", "wb", buffering=0) as f:
+            f.write(b"x")
+    except OSError as e:
+        return e.errno == 28
+    return False
+
+
+def inj_write_fault(rng, scn):
+    """the output path is a symbolic link to /dev/full: it can be opened, the write itself fails
+    (no space left on device); the other files of the run are valid"""
+    if not devfull_ok():
+        raise IndexError("/dev/full is not available")
+    path = rng.choice(sorted(selecting(scn)))
+    # not inside a source package directory (go list would read the link)
+    for sc in [scn] + ([scn["base_ref"]] if scn.get("base_ref") is not None else []):
+        c = ensure_cfg(sc, path)["config"]
+        c["dir"] = "gen/{{.SrcPackageName}}"
+        c["pkgname"] = "gen"
+        for ie in (lvl(sc["packages"][path], "interfaces") or {}).values():
+            for cc in [lvl(ie, "config")] + list(lvl(ie, "configs") or []):
+                if cc:
+                    for k in ("dir", "pkgname"):
+                        cc.pop(k, None)
+    scn["root"]["force-file-write"] = rng.random() < 0.75
+    for e in scn["packages"].values():
+        if lvl(lvl(e, "config"), "force-file-write") is not None:
+            del e["config"]["force-file-write"]
+    names = [r for r, q in output_names(scn).items() if r.startswith("m/gen/")]
+    scn["links"][rng.choice(sorted(names))] = "/dev/full"
+    scn["tags"] += ["OutputWriteFault", "level:force-%s" % scn["root"]["force-file-write"]]
+
+
 def inj_write_fails_readonly(rng, scn):
     """the directory that should receive a new output file is read-only"""
     names = output_names(scn)
@@ -1525,7 +1567,7 @@ INJECTIONS = {
     "InvalidGoOutputLater": later("template-data", [{"boom-syntax": True}], "InvalidGoOutput", trap=True, entry=True),
     "BadRegexLaterPkg": inj_bad_regex_later_pkg,
     "WriteFailsDir": inj_write_fails_dir, "WriteFailsParentFile": inj_write_fails_parent_file,
-    "WriteFailsReadOnly": inj_write_fails_readonly,
+    "WriteFailsReadOnly": inj_write_fails_readonly, "WriteFaultDevFull": inj_write_fault,
     "PkgLoadError": inj_pkg_load_error,
     "PkgLoadErrorFileless": lambda rng, scn: inj_pkg_load_error(rng, scn, True),
     "UnknownTemplateRootPkg": at(inj_unknown_template, "root", "pkg"), "UnknownTemplateIface": at(inj_unknown_template, "iface"),
@@ -1550,7 +1592,7 @@ FAIL_CLASSES = {"ListedMissing", "PkgLoadError", "UnknownTemplate", "MissingRemo
                 "ConfigUnreadable", "UnknownKey", "BadRegexSubpkg", "BadRegexInterface", "CyclicTemplate", "BadTemplatedValue",
                 "SchemaMissing", "SchemaReject", "TemplateSyntax", "TemplateExecution", "InvalidGoOutput", "PrepareFailure",
                 "ConflictPackage", "ConflictPkgName", "ConflictTemplate", "NoPackages",
-                "OutputIsDirectory", "OutputParentIsFile", "OutputReadOnly"}
+                "OutputIsDirectory", "OutputParentIsFile", "OutputReadOnly", "OutputWriteFault"}
 
 # ---- valid but unusual inputs ----
 GOMOD_SPELLINGS = [
@@ -1808,6 +1850,30 @@ class Out(list):
         list.append(self, pair)
 
 
+def has_unknown_key(scn):
+    ok = lambda d: d is None or (isinstance(d, dict) and all(k in KNOWN_KEYS for k in d))
+    if not all(k in KNOWN_KEYS for k in scn["root"]):
+        return True
+    for e in scn["packages"].values():
+        if e is None:
+            continue
+        if any(k not in ("config", "interfaces") for k in e) or not ok(e.get("config")):
+            return True
+        for ie in (e.get("interfaces") or {}).values():
+            if ie is None:
+                continue
+            if any(k not in ("config", "configs") for k in ie) or not ok(ie.get("config")) or not all(ok(c) for c in (ie.get("configs") or [])):
+                return True
+    return False
+
+
+def init_consistent(scn):
+    """no initial file or link lies below a path that is itself a regular file or a link"""
+    filelike = {k for k, v in scn["init"].items() if v != "DIR"} | set(scn.get("links", {}))
+    every = set(scn["init"]) | set(scn.get("links", {}))
+    return not any(p.startswith(f + "/") for p in every for f in filelike)
+
+
 def apply_injections(rng, kinds_):
     """valid base + the injections; retried until every injected class really holds of the
     resolved world (a bad value that a more specific level overrides is not in the class)"""
@@ -1825,6 +1891,10 @@ def apply_injections(rng, kinds_):
         except (IndexError, KeyError, ValueError):
             continue          # the first injection left nothing for the second one to attach to
         del s["base_ref"]
+        if (s["cfg_status"] == "CfgUnknownKey") != (s["raw_config"] is None and has_unknown_key(s)) and s["raw_config"] is None:
+            continue          # a later injection overwrote the unknown key
+        if not init_consistent(s):
+            continue
         # the base only configures packages that are in its tree (an injection into a package that
         # an earlier injection added to the scenario must not leak into the base)
         for pth in list(base["packages"]):
